@@ -17,7 +17,18 @@ func genC18(r *Rng, tier string, idx int) *Plan {
 	p := &Plan{SchedSeed: r.U64()}
 	nf := r.Range(2, 3)
 	p.Spec = genSpec(r, genOpts{Filters: nf, NoFetch: r.Bool(), Timeouts: true, Logout: 0})
-	topo := []string{"shared-memory", "shared-redis", "distinct-redis", "mixed", "same-server-different-db"}[idx%5]
+	topo := []string{"shared-memory", "shared-redis", "distinct-redis", "mixed", "same-server-different-db", "tenants-of-one-provider"}[idx%6]
+	if topo == "tenants-of-one-provider" {
+		// the filters use different tenants (policies) of ONE provider host: same discovery path, selected by query
+		for i := range p.Spec.IdPs {
+			p.Spec.IdPs[i].Host = "login.idp-shared.test"
+			p.Spec.IdPs[i].PathPfx = "/tenant/" + p.Spec.IdPs[i].Name
+			p.Spec.IdPs[i].SharedDisc = true
+			p.Spec.IdPs[i].AuthQuery = ""
+			p.Spec.Filters[i].Discovery = true
+			p.Spec.Filters[i].JWKSFetch = false
+		}
+	}
 	for i := range p.Spec.Filters {
 		f := &p.Spec.Filters[i]
 		switch topo {
@@ -27,6 +38,8 @@ func genC18(r *Rng, tier string, idx int) *Plan {
 			f.Store = "redis"
 		case "distinct-redis":
 			f.Store = []string{"redis", "redis2", "redis"}[i]
+		case "tenants-of-one-provider":
+			f.Store = []string{"redis", "redis2", "redisdb1"}[i]
 		case "same-server-different-db":
 			// one Redis server, separate logical databases: separate keyspaces, separate stores
 			f.Store = []string{"redis", "redisdb1", "redis2"}[i]
@@ -158,6 +171,15 @@ func runC18(p *Plan) *Result {
 						}
 						w.violate("C18", "login-fails-while-another-filter-is-in-use", fmt.Sprintf("logins were started at all %d filters at the same time; the one at filter %s ended with %s", len(op.Par), w.Filters[o.F].Spec.Chain, cls))
 					}
+				}
+			case "nav":
+				res := a.Nav("nav", op.B, op.F, op.Path, 6)
+				if res.Final == nil || res.Final.Class != "ok" {
+					stuck := res.Stuck
+					if len(stuck) > 160 {
+						stuck = stuck[:160]
+					}
+					w.violate("C18", "login-at-a-filter-does-not-complete", fmt.Sprintf("a plain login at filter %s (no faults) did not reach OK: %s", w.Filters[op.F].Spec.Chain, stuck))
 				}
 			default:
 				a.Exec(op)
